@@ -286,6 +286,114 @@ fn handle(ctx: &mut rink_core::Context, req: &J) -> J {
                    "lookup": ctx.lookup(name).map(|n| out_number(&n)),
                    "canonicalize": ctx.canonicalize(name)})
         }),
+        "lookup_seq" => guarded(|| {
+            // a fresh context over a synthetic database: the universe a solver model describes
+            let mut c = rink_core::Context::new();
+            for b in req["bases"].as_array().unwrap() {
+                c.registry.base_units.insert(BaseUnit::new(b.as_str().unwrap()));
+            }
+            for (k, v) in req["units"].as_object().unwrap() {
+                let d: Dimensionality = vec![(BaseUnit::new(&format!("u_{}", k)), 1i64)].into_iter().collect();
+                c.registry.units.insert(k.clone(), Number { value: numeric(v), unit: d });
+            }
+            for p in req["prefixes"].as_array().unwrap() {
+                c.registry.prefixes.push((p[0].as_str().unwrap().to_string(), numeric(&p[1])));
+            }
+            if let Some(pv) = req.get("prev").filter(|x| !x.is_null()) {
+                let d: Dimensionality = vec![(BaseUnit::new("u_ans"), 1i64)].into_iter().collect();
+                c.previous_result = Some(Number { value: numeric(pv), unit: d });
+            }
+            let mut outs = vec![];
+            for n in req["names"].as_array().unwrap() {
+                let n = n.as_str().unwrap();
+                outs.push(json!({"name": n, "lookup": c.lookup(n).map(|x| out_number(&x)),
+                                 "canonicalize": c.canonicalize(n)}));
+            }
+            json!({"outcome": "ok", "lookups": outs})
+        }),
+        "rat_to_string" => guarded(|| {
+            // BigRat::to_string / to_scientific at the unit level (both pub): (exact flag, numeral text)
+            use rink_core::output::Digits;
+            let v = rat(req["v"].as_str().unwrap());
+            let base = req["base"].as_u64().unwrap() as u8;
+            let digits = match &req["digits"] {
+                J::String(s) => match s.as_str() {
+                    "Default" => Digits::Default,
+                    "FullInt" => Digits::FullInt,
+                    "Fraction" => Digits::Fraction,
+                    "Scientific" => Digits::Scientific,
+                    "Engineering" => Digits::Engineering,
+                    x => Digits::Digits(x.parse().unwrap()),
+                },
+                J::Number(n) => Digits::Digits(n.as_u64().unwrap()),
+                _ => Digits::Default,
+            };
+            let (exact, text) = if req["fn"].as_str() == Some("to_scientific") {
+                v.to_scientific(base, digits)
+            } else {
+                v.to_string(base, digits)
+            };
+            json!({"outcome": "ok", "exact": exact, "text": text})
+        }),
+        "parse_date" => guarded(|| {
+            // one pattern element of parse_date (pub) on a token list; reports which Parsed fields were written
+            use rink_core::ast::{DatePattern, DateToken};
+            let toks: Vec<DateToken> = req["tokens"].as_array().unwrap().iter().map(|t| {
+                let text = || t["text"].as_str().unwrap_or("").to_string();
+                match t["kind"].as_str().unwrap() {
+                    "Number" => DateToken::Number(text(), t.get("frac").and_then(|x| x.as_str()).map(|x| x.to_string())),
+                    "Literal" => DateToken::Literal(text()),
+                    "Colon" => DateToken::Colon,
+                    "Dash" => DateToken::Dash,
+                    "Space" => DateToken::Space,
+                    "Plus" => DateToken::Plus,
+                    _ => DateToken::Error(text()),
+                }
+            }).collect();
+            let pat = vec![DatePattern::Match(req["element"].as_str().unwrap().to_string())];
+            let mut out = chrono::format::Parsed::new();
+            let mut tz = None;
+            let mut it = toks.into_iter().peekable();
+            let r = rink_core::parsing::datetime::parse_date(&mut out, &mut tz, &mut it, &pat);
+            let mut f = serde_json::Map::new();
+            macro_rules! fld { ($($n:ident),*) => { $( if let Some(x) = out.$n { f.insert(stringify!($n).to_string(), json!(x as i64)); } )* } }
+            fld!(year, year_div_100, year_mod_100, isoyear, isoyear_div_100, isoyear_mod_100, month, week_from_sun, week_from_mon,
+                 isoweek, ordinal, day, hour_div_12, hour_mod_12, minute, second, nanosecond, timestamp, offset);
+            if out.weekday.is_some() { f.insert("weekday".to_string(), json!(format!("{:?}", out.weekday.unwrap()))); }
+            json!({"outcome": "ok", "ok": r.is_ok(), "error": r.err(), "fields": f, "tz": tz.map(|z| format!("{:?}", z)), "rest": it.count()})
+        }),
+        "substance_get" => guarded(|| {
+            // Substance::get (and optionally `substance * k` first) on a substance built from a solver model
+            use rink_core::runtime::{Properties, Property, Substance, SubstanceGetError};
+            let mut props = std::collections::BTreeMap::new();
+            for (k, p) in req["props"].as_object().unwrap() {
+                props.insert(k.clone(), Property {
+                    input: number(&p["input"]),
+                    input_name: p["input_name"].as_str().unwrap().to_string(),
+                    output: number(&p["output"]),
+                    output_name: p["output_name"].as_str().unwrap().to_string(),
+                    doc: None,
+                });
+            }
+            let mut s = Substance {
+                amount: number(&req["amount"]),
+                properties: std::sync::Arc::new(Properties { name: "stuff".to_string(), properties: props }),
+            };
+            if let Some(k) = req.get("k").filter(|x| !x.is_null()) {
+                let kn = Number { value: numeric(k), unit: Dimensionality::new() };
+                match &s * &kn {
+                    Ok(s2) => s = s2,
+                    Err(e) => return json!({"outcome": "ok", "mul_error": e}),
+                }
+            }
+            let amount = out_number(&s.amount);
+            match s.get(req["q"].as_str().unwrap()) {
+                Ok(n) => json!({"outcome": "ok", "amount": amount, "ok": true, "number": out_number(&n)}),
+                Err(SubstanceGetError::Generic(e)) => json!({"outcome": "ok", "amount": amount, "ok": false, "kind": "generic", "error": e}),
+                Err(SubstanceGetError::Conformance(l, r)) => json!({"outcome": "ok", "amount": amount, "ok": false, "kind": "conformance",
+                                                                    "left": out_number(&l), "right": out_number(&r)}),
+            }
+        }),
         "canon_roundtrip" => guarded(|| {
             let name = req["name"].as_str().unwrap();
             let canon = ctx.canonicalize(name);
